@@ -1,6 +1,6 @@
 /* Point / Channel copy constructors: every stored frame goes through them (C01 C06 C08). */
 #include "vf_harness.h"
-size_t vf_gk, vf_gj, vf_gc;
+VF_GHOSTS
 
 /* the vector<float> growth 0 -> 4 in Point's constructor is run on the model body (constant bound 4) */
 void contract_Point__ctor__Point(struct Point *self, const struct Point *p)
